@@ -68,6 +68,9 @@ func main() {
 		for _, c := range w.Viol {
 			fmt.Printf("  sig=%s expr=%s tree=%s ctx=%s expected=%s got=%s\n", c.Sig, c.Expr, c.TreeS, c.CtxS, c.Expected, c.Got)
 		}
+	case "nestcase":
+		d, _ := strconv.Atoi(os.Args[3])
+		props.NestCase(os.Args[2], d)
 	case "replay":
 		c, err := report.LoadCase(os.Args[2])
 		if err != nil {
